@@ -137,7 +137,6 @@ Definition spec_uclaims (id : string) (ops : list uop) : list lkey :=
 
 (* ---------- C13: the documented effect of one method on the observable container ---------- *)
 Definition is_none {A} (o : option A) : bool := match o with Some _ => false | None => true end.
-Definition env_kv (e : string * string) : string * string := e.
 
 (* a keyed entry written under key k: '-'rest removes rest, anything else is present exactly as given *)
 Definition keyed_expect {W} (wkey : W -> string) (weqb : W -> W -> bool) (k : string) (w : W) (after : list W) : bool :=
